@@ -286,6 +286,11 @@ func (t *ipTransport) notifyListener(a *accessory.Accessory, c *characteristic.C
 		bytes, err := ioutil.ReadAll(buffer)
 		bytes = hap.FixProtocolSpecifier(bytes)
 		log.Debug.Printf("%s <- %s", conn.RemoteAddr(), string(bytes))
+		if con, ok := conn.(*hap.Connection); ok {
+			// not in the middle of a response which is being written on that connection
+			con.WriteMessage(bytes)
+			continue
+		}
 		conn.Write(bytes)
 	}
 }
